@@ -20,6 +20,10 @@
    next commit start a fresh manifest; SetReadOnly hands the write lock over explicitly; OpenTransaction does not
    return a transaction on a DB whose closeC was closed before db.tr was published); switching one
    flag off gives the code before that repair (used by the ..._leaks_refuted examples).
+   mCompaction / tCompaction follow the code after the repair "a DB in the persistent-error state starts no
+   flush and no table compaction": between receiving a command (or taking the default case) and starting work
+   they test compPerErrC without blocking; in that state they acknowledge everything they hold with the error
+   and return (edges M1 -> MX, T3 k -> TX).
 
    Model file: definitions only (proofs in Conc/LocksProofs.v).
    NOT modelled: the Go scheduler and memory model, fairness, wall-clock time (time.After / back-off timers
@@ -287,7 +291,7 @@ Definition after_ack (ok : bool) (pc : cpc) : cpc :=
 Definition medges (pc : mpc) : list (lbl * mpc) :=
   match pc with
   | M0 => [ (LSeeClosed, MX) ]                                       (* + passive: receives a command *)
-  | M1 => [ (LTau, MAck); (LTau, MP) ]
+  | M1 => [ (LTau, MAck); (LTau, MP); (LRecvPerr, MX) ]             (* persistent error: no flush is started; ack(perr), return *)
   | MP => [ (LSendPause, MB true); (LRecvPerr, MB false); (LSeeClosed, MX) ]
   | MB p => [ (LIfClosed true, MX); (LIfClosed false, MB1 p) ]
   | MB1 p => [ (LTau, MBs p EOk); (LTau, MBs p ETrans); (LTau, MBs p ECorr) ]
@@ -309,17 +313,24 @@ Definition medges (pc : mpc) : list (lbl * mpc) :=
 
 Definition tcont (k : tk) : tpc :=
   match k with KT0 => T0 | KT2 => T2 | KT4 => T4 | KTB1 r => TB1 r end.
+(* where tCompaction continues after the resume-write acks of its waitQ: on the need-compaction branch (KT4) the
+   test of the persistent error comes next, i.e. T3 XNo (no command held) *)
+Definition qcont (k : tk) : tpc :=
+  match k with KT4 => T3 XNo | _ => tcont k end.
 
 Definition tedges (pc : tpc) : list (lbl * tpc) :=
   match pc with
   | T0 => [ (LTau, T1); (LTau, T2a) ]
   | T1 => [ (LSeeClosed, TX); (LTau, T1b) ]                          (* + passive: command / pause *)
-  | T1b => [ (LTau, T4); (LTau, TQ KT4) ]
+  | T1b => [ (LTau, T3 XNo); (LTau, TQ KT4) ]
   | T2a => [ (LTau, TQ KT2) ]
   | T2 => [ (LSeeClosed, TX) ]                                       (* + passive: command / pause *)
-  | T3 XNo => [ (LTau, T4) ]
-  | T3 XAck => [ (LTau, TAx KT4); (LEnqueue, T4) ]
-  | T3 XRange => [ (LTau, T3r) ]
+  (* T3 k: after the select, holding command k (XNo: none, or a cAuto without ack channel).  First the test of
+     the persistent error (compactionPerErr: a non-blocking receive on compPerErrC): in that state no compaction
+     is started, waitQ and the command are acknowledged with the error (TX) and the goroutine returns *)
+  | T3 XNo => [ (LTau, T4); (LRecvPerr, TX) ]
+  | T3 XAck => [ (LTau, TAx KT4); (LEnqueue, T4); (LRecvPerr, TX) ]
+  | T3 XRange => [ (LTau, T3r); (LRecvPerr, TX) ]
   | T3r => [ (LTau, TB true); (LTau, TC true); (LTau, TAx KT4) ]
   | T4 => [ (LTau, T0); (LTau, TB false); (LTau, TC false) ]
   | TB r => [ (LIfClosed true, TX); (LIfClosed false, TB1 r) ]
@@ -333,7 +344,7 @@ Definition tedges (pc : tpc) : list (lbl * tpc) :=
                  (LRecvPerr, match e with EOk => TE r | _ => TXu end); (LSeeClosed, TXu) ]
   | TE r => [ (LUnlockC, if r then T3r else T0) ]
   | TP k => [ (LSeeClosed, TX) ]                                     (* + passive: the resume receive *)
-  | TQ k => [ (LAckQ true, TQ k); (LQEmpty, tcont k) ]
+  | TQ k => [ (LAckQ true, TQ k); (LQEmpty, qcont k) ]
   | TAx k => [ (LAck true, tcont k) ]
   | TXu => [ (LUnlockC, TX) ]
   | TX => [ (LAckQ false, TX); (LAck false, TDone) ]
